@@ -27,7 +27,7 @@ VERIFICATION_MSGS = [
     'assertion failure', 'assertion failed in bit vector', 'bit_vector', 'by (compute)', 'expression simplifies to',
     'failed to unwrap', 'possible overflow', 'index out of bounds', 'may be out of bounds',
     'loop invariant', 'assert_by_compute', 'cannot prove', 'failed precondition', 'postcondition',
-    'expected Err', 'possible truncation', 'not satisfied', 'unable to prove', 'post-condition',
+    'expected Err', 'possible truncation', 'not satisfied', 'unable to prove', 'post-condition', 'precondition not met', 'index in bounds', 'not met',
 ]
 UNDECIDED_MSGS = ['Resource limit (rlimit) exceeded', 'timed out', 'rlimit']
 
